@@ -1,4 +1,4 @@
 #!/bin/sh
 # regenerate gen/*.json, lean/AV/Gen/*.lean and harness/gen_tables.go from /repo's current tree
 cd "$(dirname "$0")"
-python3 translators/t1_ontology.py /repo gen/ontology.json && bin/t2 /repo > gen/impl.json && python3 translators/gen_lean.py gen lean && python3 translators/gen_harness.py gen harness
+python3 translators/t1_ontology.py "${VERIF_REPO:-/repo}" gen/ontology.json && bin/t2 "${VERIF_REPO:-/repo}" > gen/impl.json && python3 translators/gen_lean.py gen lean && python3 translators/gen_harness.py gen harness
